@@ -428,5 +428,6 @@ func checkC16(w *World, r *Run) {
 		hdrBoth := strings.Contains(da["firstPss"], "tinkHeaderLen") && strings.Contains(db["firstPss"], "tinkHeaderLen")
 		r.Check(hdrBoth, ruleSeek, "both helpers shorten the first segment by the stream header", fa.Pos(), "firstPss = pss − tinkHeaderLen", "the first segment's plaintext size ignores the stream header in one of the helpers")
 	}
+	checkHeaderEOFIsTruncation(w, r)
 	r.NotCovered("the cryptographic strength of AES-GCM-HKDF and of the KMS back ends; segment arithmetic for every length and offset (runtime values); confidentiality of key material in memory; that the header's SegmentSize and PQ fields, which are stored in clear, cannot be altered without failing decryption is a consequence of the binding and tag checks above, not separately decided")
 }
